@@ -1,14 +1,19 @@
 (* C11 — a relation tagged #[ds(trrel)] behaves as its explicit transitive closure.
    Property theorems only; proofs are references into Byods/TrRelProofs.v and Byods/TrRelTernary.v.
-   Model: Byods/TrRelModel.v (mirror of trrel_binary_ind.rs / trrel_ternary_ind.rs / binary_rel.rs as they are;
-   anti_reflexive is a parameter of the model's merge, `shipped_arefl = true` is what the code hard-wires).
+   Model: Byods/TrRelModel.v (mirror of trrel_binary_ind.rs / trrel_ternary_ind.rs / binary_rel.rs as they are after
+   the three repairs in /repo: 2cd049f anti_reflexive created false, 0ce9ae6 delta's reverse maps rebuilt from the new
+   delta, 72c0385 `.max(1)` in TrRel2Ind1_2::len_estimate).  The anti_reflexive flag and the reverse-map handling stay
+   parameters of the model; `shipped_arefl = false`, `tmerge = tmerge_gen .. true` are what the code does now.
 
-   Provider.v / Closure.v (owned by the C10 builder) were not present when this file was written: the closure
-   (tc, cl) and the provider laws P1-P5 are stated here directly on the trrel model.
+   The closure (tc: right-linear, proved the least transitive relation containing R: tc_least, tc_trans) is defined in
+   Byods/TrRelProofs.v.  Byods/Provider.v (C10's file) quantifies its laws over ALL operation sequences (an unconditional
+   insert_if_not_present, a stratum boundary at any point); the trrel code meets the laws on histories of the
+   head-update protocol (contains_key(total), contains_key(delta) before every insertion; a boundary only after a
+   merge that found `new` empty) — off-protocol insertions reach insert_unique_unchecked with duplicates.  The laws
+   P1-P5 are therefore stated here over protocol histories (brun / trun).
 
-   What is NOT true of the code as shipped, and therefore refuted instead of proved:
-     - total + delta = tc(inserted)            (c11_refuted_cycle: pairs (x,x) implied by cycles are never produced, F3)
-     - every delta view serves the added part  (c11_ternary_rev_refuted: views [1], [2], [1,2] of the ternary form, F4) *)
+   The lemmas named `_before_fix` describe the behaviour before the repairs, as statements about the model with the old
+   parameter values; they are not claims about the current code. *)
 From Coq Require Import List ZArith Bool.
 From AV Require Import Byods.TrRelModel.
 From AV Require Import Byods.TrRelProofs.
@@ -16,7 +21,33 @@ From AV Require Import Byods.TrRelTernary.
 Import ListNotations.
 Open Scope Z_scope.
 
-(* ---- the merge (binary form) ---- *)
+(* ================= the property ================= *)
+
+(* binary form r(T,T): after any history of the engine protocol (insertions through the head update, merges, stratum
+   boundaries), at every loop head, what total and delta serve is EXACTLY the transitive closure of the inserted
+   tuples — pairs (x,x) implied by cycles included *)
+Theorem c11_closure : forall ops st ins,
+  brun shipped_arefl bempty [] ops = Some (st, ins) -> b_new st = [] ->
+  forall x y, In (x, y) (reads st) <-> tc ins x y.
+Proof. exact trrel_closure. Qed.
+
+(* ternary form r(K,T,T), forward map: the same per key *)
+Theorem c11_ternary_closure : forall h ops st ins,
+  trun shipped_arefl h tempty [] ops = Some (st, ins) -> t_map (t_new st) = [] ->
+  forall k x y, In (x, y) (tk st k ++ dk st k) <-> tc (proj k ins) x y.
+Proof. exact trun_per_key_closure. Qed.
+
+(* ternary form, reading through the reverse maps (indices [1], [2], [1,2]): for BOTH versions, along every history,
+   the views never panic and return exactly the restriction of the version to the key (laws P4/P5) *)
+Theorem c11_ternary_rev_views_exact : forall b ops st ins,
+  trun b true tempty [] ops = Some (st, ins) ->
+  forall v, v = t_total st \/ v = t_delta st ->
+  (forall x1, exists l, tv_i1_get1 v x1 = Some l /\ forall t, In t l <-> has v t /\ snd (fst t) = x1) /\
+  (forall x2, exists l, tv_i2_get1 v x2 = Some l /\ forall t, In t l <-> has v t /\ snd t = x2) /\
+  (forall x12, exists l, tv_i12_get1 v x12 = Some l /\ forall t, In t l <-> has v t /\ (snd (fst t), snd t) = x12).
+Proof. exact rev_views_exact. Qed.
+
+(* ================= the merge (binary form) ================= *)
 
 (* the inner semi-naive loop: total transitively closed, flag off  ==>  delta' + total' = tc(total + delta + new) *)
 Theorem trrel_merge_closure : forall st st',
@@ -32,49 +63,19 @@ Theorem c11_merge_exact : forall b st st',
   (forall p, In p (b_delta st') <-> target b (b_total st ++ b_delta st) (b_new st) p).
 Proof. exact bmerge_spec. Qed.
 
-(* the loop terminates: the model's fuel bound is never reached *)
+(* the loop terminates: the model's fuel bound is never reached; no merge of a reachable state is stuck *)
 Theorem c11_merge_defined : forall b st, NoDup (b_new st) -> exists st', bmerge b st = Some st'.
 Proof. exact bmerge_total. Qed.
-
-(* ---- histories of the engine protocol (binary form): insert* ; merge ; ... ; SCC boundary ; ... ---- *)
-
-(* law P2 for every value of the flag: at each loop head total + delta = cl(everything inserted),
-   cl b R = R + { derivable pairs passing the filter };  cl false = tc *)
-Theorem c11_P2_reads_are_cl : forall b ops st ins,
-  brun b bempty [] ops = Some (st, ins) -> b_new st = [] -> forall p, In p (reads st) <-> cl b ins p.
-Proof. exact brun_reads. Qed.
-
-(* the property for the binary form, for the provider with anti_reflexive = false *)
-Theorem c11_closure_flag_off : forall ops st ins,
-  brun false bempty [] ops = Some (st, ins) -> b_new st = [] -> forall x y, In (x, y) (reads st) <-> tc ins x y.
-Proof. exact trrel_closure_flag_off. Qed.
-
-(* ... which the shipped provider (flag hard-wired to true) violates: edges (1,2), (2,1) imply (1,1) *)
-Theorem c11_refuted_cycle :
-  exists ops st ins p, brun shipped_arefl bempty [] ops = Some (st, ins) /\ b_new st = [] /\
-                       tc ins (fst p) (snd p) /\ ~ In p (reads st).
-Proof. exact trrel_shipped_refuted. Qed.
-
-(* the full statement guarded by the decidable known class: sound always; complete for every tuple outside
-   known_c11 ins p = (p is (x,x) and was not inserted itself) *)
-Theorem c11_holds_outside_known : forall ops st ins,
-  brun shipped_arefl bempty [] ops = Some (st, ins) -> b_new st = [] ->
-  forall p, (In p (reads st) -> tc ins (fst p) (snd p)) /\
-            (tc ins (fst p) (snd p) -> known_c11 ins p = false -> In p (reads st)).
-Proof. exact trrel_shipped_guarded. Qed.
-
-(* and the known class is exactly what is lost *)
-Theorem c11_lost_exactly_known : forall ops st ins,
-  brun shipped_arefl bempty [] ops = Some (st, ins) -> b_new st = [] ->
-  forall p, tc ins (fst p) (snd p) -> (~ In p (reads st) <-> known_c11 ins p = true).
-Proof. exact trrel_shipped_exact. Qed.
-
-(* no merge of a reachable state runs out of fuel *)
 Theorem c11_histories_never_stuck : forall b ops st ins,
   brun b bempty [] ops = Some (st, ins) -> exists st', bmerge b st = Some st'.
 Proof. exact brun_merge_defined. Qed.
 
-(* ---- provider laws P1, P3, P4, P5 (binary form) ---- *)
+(* ================= provider laws (binary form) ================= *)
+
+(* P2 for every value of the flag: total + delta = cl(everything inserted); cl false = tc *)
+Theorem c11_P2_reads_are_cl : forall b ops st ins,
+  brun b bempty [] ops = Some (st, ins) -> b_new st = [] -> forall p, In p (reads st) <-> cl b ins p.
+Proof. exact brun_reads. Qed.
 
 (* P1 + P5 at the head update: the two contains_key tests decide membership in total / delta; the insertion
    into new returns false only for a pair already in new *)
@@ -103,21 +104,21 @@ Qed.
 Theorem c11_P5_contains : forall p r, pmem p r = true <-> In p r.
 Proof. exact pmem_spec. Qed.
 
-(* ---- ternary form ---- *)
+(* ================= ternary form: lifting ================= *)
 
-(* per-key lifting of the forward map: on every key the ternary merge is the binary merge of the key's slices *)
+(* on every key the ternary merge is the binary merge of the key's slices *)
 Theorem c11_ternary_merge_per_key : forall b h st st',
   twf st -> tmerge b h st = Some st' -> twf st' /\ forall k, bmerge b (slice k st) = Some (slice k st').
 Proof. exact tmerge_per_key. Qed.
 
-(* hence law P2 key by key, for every history of the protocol *)
+(* hence law P2 key by key, for either flag *)
 Theorem c11_ternary_per_key : forall b h ops st ins,
   trun b h tempty [] ops = Some (st, ins) -> t_map (t_new st) = [] ->
   forall k p, In p (kget k (t_map (t_total st)) ++ kget k (t_map (t_delta st))) <-> cl b (proj k ins) p.
 Proof. exact trun_per_key. Qed.
 
-(* what the reverse-map views return: the tuples of the version restricted to the key AND to the keys the reverse
-   map registers for that column value; they panic exactly on a registered key absent from the per-key map *)
+(* what the reverse-map views return for ANY version value: the tuples of the version restricted to the key and to the
+   keys the reverse map registers for that column value; view [1] panics exactly on a registered key absent from the map *)
 Theorem c11_ternary_rev_views : forall v,
   (forall x1 l, tv_i1_get1 v x1 = Some l -> forall t, In t l <-> has v t /\ snd (fst t) = x1 /\ In (x1, fst (fst t)) (t_rev1 v)) /\
   (forall x2 l, tv_i2_get1 v x2 = Some l -> forall t, In t l <-> has v t /\ snd t = x2 /\ In (x2, fst (fst t)) (t_rev2 v)) /\
@@ -128,46 +129,62 @@ Proof.
   intros v. split; [exact (tv_i1_get1_spec v) | split; [exact (tv_i2_get1_spec v) | split; [exact (tv_i12_get1_spec v) | exact (tv_i1_get1_panics v)]]].
 Qed.
 
-(* F4: a tuple of the added part of delta that views [1] and [1,2] (resp. [2]) of delta do not serve *)
-Theorem c11_ternary_rev_refuted :
+(* ================= the behaviour before the repairs (model with the old parameter values) ================= *)
+
+(* before commit 2cd049f the flag was created `true`: edges (1,2), (2,1) imply (1,1), which was not produced ... *)
+Theorem c11_refuted_cycle_before_fix :
+  exists ops st ins p, brun true bempty [] ops = Some (st, ins) /\ b_new st = [] /\
+                       tc ins (fst p) (snd p) /\ ~ In p (reads st).
+Proof. exact trrel_flag_on_refuted. Qed.
+
+(* ... and exactly the non-inserted pairs (x,x) were lost *)
+Theorem c11_lost_exactly_known_before_fix : forall ops st ins,
+  brun true bempty [] ops = Some (st, ins) -> b_new st = [] ->
+  forall p, tc ins (fst p) (snd p) -> (~ In p (reads st) <-> known_c11 ins p = true).
+Proof. exact trrel_flag_on_exact. Qed.
+
+(* before commit 0ce9ae6 delta's reverse maps were those of `new`: a tuple of the added part of delta that views [1]
+   and [1,2] (resp. [2]) of delta did not serve *)
+Theorem c11_ternary_rev_refuted_before_fix :
   exists ops st ins t,
-    trun shipped_arefl true tempty [] ops = Some (st, ins) /\ has (t_delta st) t /\ ~ has (t_total st) t /\
+    trun_old shipped_arefl tempty [] ops = Some (st, ins) /\ has (t_delta st) t /\ ~ has (t_total st) t /\
     (exists l, tv_i1_get1 (t_delta st) (snd (fst t)) = Some l /\ ~ In t l) /\
     (exists l, tv_i12_get1 (t_delta st) (snd (fst t), snd t) = Some l /\ ~ In t l).
-Proof. exact trrel_ternary_rev_refuted. Qed.
+Proof. exact trrel_ternary_rev_refuted_before_fix. Qed.
 
-Theorem c11_ternary_rev2_refuted :
+Theorem c11_ternary_rev2_refuted_before_fix :
   exists ops st ins t,
-    trun shipped_arefl true tempty [] ops = Some (st, ins) /\ has (t_delta st) t /\ ~ has (t_total st) t /\
+    trun_old shipped_arefl tempty [] ops = Some (st, ins) /\ has (t_delta st) t /\ ~ has (t_total st) t /\
     (exists l, tv_i2_get1 (t_delta st) (snd t) = Some l /\ ~ In t l).
-Proof. exact trrel_ternary_rev2_refuted. Qed.
+Proof. exact trrel_ternary_rev2_refuted_before_fix. Qed.
 
-(* ---- non-vacuity: computed instances ---- *)
+(* ================= non-vacuity: computed instances ================= *)
 
-(* the cycle witness: the shipped provider serves {(1,2),(2,1)}, the provider with the flag off serves all four pairs *)
+(* the cycle witness: the provider serves all four pairs (the old flag value served two) *)
 Example c11_example_cycle :
-  option_map (fun r => reads (fst r)) (brun true bempty [] [BIns 1 2; BIns 2 1; BMerge; BMerge]) = Some [(1, 2); (2, 1)] /\
-  option_map (fun r => reads (fst r)) (brun false bempty [] [BIns 1 2; BIns 2 1; BMerge; BMerge]) = Some [(1, 2); (2, 1); (1, 1); (2, 2)].
+  option_map (fun r => reads (fst r)) (brun shipped_arefl bempty [] [BIns 1 2; BIns 2 1; BMerge; BMerge]) = Some [(1, 2); (2, 1); (1, 1); (2, 2)] /\
+  option_map (fun r => reads (fst r)) (brun true bempty [] [BIns 1 2; BIns 2 1; BMerge; BMerge]) = Some [(1, 2); (2, 1)].
 Proof. vm_compute. split; reflexivity. Qed.
 
 (* facts arriving over several merges, an SCC boundary in between: a 4-chain closes to 6 pairs *)
 Example c11_example_chain :
   option_map (fun r => length (reads (fst r)))
-    (brun true bempty [] [BIns 0 1; BMerge; BIns 2 3; BMerge; BMerge; BRestart; BIns 1 2; BMerge; BMerge]) = Some 6%nat.
+    (brun shipped_arefl bempty [] [BIns 0 1; BMerge; BIns 2 3; BMerge; BMerge; BRestart; BIns 1 2; BMerge; BMerge]) = Some 6%nat.
 Proof. vm_compute. reflexivity. Qed.
 
-(* the ternary witness of F4 as the tie observes it: masks of delta's views after the second merge *)
+(* the ternary witness: after the second merge every view of delta serves both (0,2,3) and the derived (0,1,3) *)
 Example c11_example_ternary :
-  match trun true true tempty [] [TIns 0 1 2; TMerge; TIns 0 2 3; TMerge] with
+  match trun shipped_arefl true tempty [] [TIns 0 1 2; TMerge; TIns 0 2 3; TMerge] with
   | Some (st, _) => (tall (t_delta st), tv_i1_get 4 (t_delta st), tv_i2_get 4 (t_delta st))
   | None => ([], None, None)
-  end = ([(0, 2, 3); (0, 1, 3)], Some [(0, 2, 3)], Some [(0, 2, 3); (0, 1, 3)]).
+  end = ([(0, 2, 3); (0, 1, 3)], Some [(0, 1, 3); (0, 2, 3)], Some [(0, 2, 3); (0, 1, 3)]).
 Proof. vm_compute. reflexivity. Qed.
 
+Print Assumptions c11_closure. Print Assumptions c11_ternary_closure. Print Assumptions c11_ternary_rev_views_exact.
 Print Assumptions trrel_merge_closure. Print Assumptions c11_merge_exact. Print Assumptions c11_merge_defined.
-Print Assumptions c11_P2_reads_are_cl. Print Assumptions c11_closure_flag_off. Print Assumptions c11_refuted_cycle.
-Print Assumptions c11_holds_outside_known. Print Assumptions c11_lost_exactly_known. Print Assumptions c11_histories_never_stuck.
-Print Assumptions c11_P1_insert. Print Assumptions c11_P3_total_is_previous_reads. Print Assumptions c11_P4_views.
-Print Assumptions c11_P5_contains. Print Assumptions c11_ternary_merge_per_key. Print Assumptions c11_ternary_per_key.
-Print Assumptions c11_ternary_rev_views. Print Assumptions c11_ternary_rev_refuted. Print Assumptions c11_ternary_rev2_refuted.
+Print Assumptions c11_histories_never_stuck. Print Assumptions c11_P2_reads_are_cl. Print Assumptions c11_P1_insert.
+Print Assumptions c11_P3_total_is_previous_reads. Print Assumptions c11_P4_views. Print Assumptions c11_P5_contains.
+Print Assumptions c11_ternary_merge_per_key. Print Assumptions c11_ternary_per_key. Print Assumptions c11_ternary_rev_views.
+Print Assumptions c11_refuted_cycle_before_fix. Print Assumptions c11_lost_exactly_known_before_fix.
+Print Assumptions c11_ternary_rev_refuted_before_fix. Print Assumptions c11_ternary_rev2_refuted_before_fix.
 Print Assumptions c11_example_cycle. Print Assumptions c11_example_chain. Print Assumptions c11_example_ternary.
